@@ -130,6 +130,19 @@ def check(case):
                     M.need(np.ndim(got) == 0 and pd.isna(got), f"{key} {where}: empty control cell gives {got!r}, expected NaN")
                 tags.add("empty_control_cell")
                 continue
+            if any(math.isnan(v) for v in vals):
+                # a metric that is undefined (NaN) on a non-empty group: the statement fixes nothing for this column
+                # beyond "NaN or the extreme of the defined groups" - but the *other* columns of the same frame are
+                # checked in full below (an undefined cell of one metric must not remove the group from another's)
+                fin = [v for v in vals if not math.isnan(v)]
+                for errors in ("raise", "coerce"):
+                    for k, f in (("min", min), ("max", max)):
+                        got = results[(k, errors)][ck][j]
+                        M.need(np.ndim(got) == 0 and (pd.isna(got) or (fin and M.close(got, f(fin)))),
+                               f"group_{k}(errors={errors}) {where} = {got!r}; groups {vals}")
+                if len(items) > 1:
+                    tags.add("nan_cell_beside_other_metric")
+                continue
             mn, mx, ov = min(vals), max(vals), overall[j]
             sc = max(abs(mn), abs(mx), abs(ov), 1e-300)  # operand magnitude: comparisons are relative to it
             if len(set(vals)) > 1:
@@ -222,7 +235,7 @@ def _strategy(draw):
 
 def _base_strategy():
     return M.mf_case(
-        metric_keys=("selection_rate", "selection_rate", "wmean", "mean_prediction", "wmean", "count", "lin", "tiny"),
+        metric_keys=("selection_rate", "selection_rate", "wmean", "mean_prediction", "wmean", "count", "lin", "tiny", "nanhit"),
         allow_collisions=False,
     )
 
@@ -230,5 +243,6 @@ def _base_strategy():
 SUBS = [
     Sub("aggregates", check, strategy=_strategy, quick=1200, thorough=30000, shards=16,
         floors={"nt": 0.282, "zero_denominator": 0.05, "control": 0.15, "negative_values": 0.03,
-                "all_equal_groups": 0.05, "tiny_valued_metric": 0.02, "mean_metric": 0.3, "dict": 0.247}),
+                "all_equal_groups": 0.05, "tiny_valued_metric": 0.02, "mean_metric": 0.3, "dict": 0.247,
+                "nan_cell_beside_other_metric": 0.02}),
 ]
